@@ -3,12 +3,14 @@
    observation).  The observation is what Marshal followed by Unmarshal did on the real
    code: the decoded value (rendered by the same printer as the input), an encoder error,
    a decoder error or a panic.  Error messages are not compared (class only). *)
+From Coq Require Import String.
 From Eino Require Import Base.Util Base.Universe Model.Ser.
 
 Inductive obs : Type := OOk (v : val) | OEncErr | ODecErr | OPanic.
 
 Inductive ccase : Type :=
-| Case (regx : registry) (env : senv) (wtc : bool) (v : val) (o : obs).
+| Case (regx : registry) (env : senv) (wtc : bool) (v : val) (o : obs)
+| Probe (regx : registry) (k : string) (t : ty) (refused : bool).   (* a registration attempt *)
 
 Definition run_with (fx : fixes) (regx : registry) (env : senv) (v : val) : obs :=
   let reg := (builtin_registry ++ regx)%list in
@@ -39,5 +41,7 @@ Definition bad (c : ccase) : bool :=
   match c with
   | Case regx env wtc v o =>
       negb (obs_eqb (run_case regx env v) o) || negb (Bool.eqb (wt env v) wtc)
+  | Probe regx k t refused =>
+      negb (Bool.eqb (negb (is_ok (register (builtin_registry ++ regx)%list k t))) refused)
   end.
 Definition mismatches (cs : list ccase) : list nat := mismatches_from bad 0 cs.
